@@ -457,6 +457,19 @@ func runValues(f lib.Flags, res *lib.Result, drv *lib.Driver, ms *monitors) {
 			code := c.monitor(ms)
 			model := fmt.Sprint([3]string{ans[3*i], ans[3*i+1], ans[3*i+2]})
 			if c.inexact() {
+				// the exact model cannot be compared here: ask the driver's IEEE tier instead
+				if l, ok := c.ieeeLine(); ok {
+					a, err := drv.Ask(l)
+					if err != nil {
+						tie.Fail(err)
+						return
+					}
+					ieee := res.Extra["ieee_tie"].(*lib.Tie)
+					ieee.Record(l, true, c.json(), a+",true", c.runCode()[0])
+					ieee.Count("from-value-comparers")
+					tie.Count("inexact-compared-by-ieee-tier")
+					continue
+				}
 				tie.Count("skipped-inexact")
 				continue
 			}
